@@ -5,6 +5,7 @@ from jaxtyping import Float
 from torch import Tensor
 
 from linear_operator.operators._linear_operator import LinearOperator
+from linear_operator.utils.generic import _to_helper
 
 
 class AbstractPermutationLinearOperator(LinearOperator):
@@ -44,6 +45,18 @@ class AbstractPermutationLinearOperator(LinearOperator):
     @property
     def dtype(self) -> Optional[torch.dtype]:
         return self._dtype
+
+    def to(self: LinearOperator, *args, **kwargs) -> LinearOperator:
+        # The dtype is not held by the (integer) tensors of the operator: carry it over to the new operator
+        _, dtype = _to_helper(*args, **kwargs)
+        res = super().to(*args, **kwargs)
+        res._dtype = self._dtype if dtype is None else dtype
+        return res
+
+    def type(self: LinearOperator, dtype: torch.dtype) -> LinearOperator:
+        res = super().type(dtype)
+        res._dtype = dtype
+        return res
 
 
 class PermutationLinearOperator(AbstractPermutationLinearOperator):
